@@ -34,8 +34,10 @@ TRUSTED_BASE = [
     "exact rationals / reals stand for IEEE doubles up to rounding; finite differences: central, h = 1e-5 (first), "
     "tolerance 1e-6 relative + twice the observed step-size sensitivity; cases whose finite difference is itself "
     "unstable are skipped and counted",
-    "compiled extensions cconf_gen / ade_rb_opt / ade_dihedrals are compared numerically only (their .pyx/.cpp "
-    "sources are read by hand, not translated)",
+    "compiled extensions: cconf_gen v/dvdr are compared numerically (finite differences, Coq pair model); RBPotential has NO "
+    "public entry point returning its energy or gradient - it is tied by a hand mirror of set_energy / set_energy_and_grad / "
+    "SDOptimiser::run (whole-file pins on potentials.cpp, molecule.cpp, optimisers.cpp, the .pyx and headers) whose steepest-"
+    "descent result must coincide with opt_rb_coords to 1e-7 (decision margins < 1e-9 skipped)",
 ]
 ASSUMPTIONS = [
     "The step 'jet arithmetic + correct (f,f',f'') triples => the arrays are the gradient and Hessian of the composed "
@@ -43,8 +45,17 @@ ASSUMPTIONS = [
     "finite-difference oracle on generated expressions and on every primitive class",
     "atan2 itself is not defined in the Coq standard library: the theorem states that both branch formulas have the "
     "partial derivatives x/(x^2+y^2), -y/(x^2+y^2) of the polar angle",
-    "PrimitiveDummyLinearAngle places its dummy atom along a Cartesian axis: its value is translation- but by design not "
-    "rotation-invariant; rotation invariance is not asserted for it",
+    "The value function of a primitive is its object's own __call__ (one object evaluated at many geometries, as the optimisers "
+    "do); derivatives, history-independence and rigid-motion invariance are all checked against THAT function. "
+    "PrimitiveDummyLinearAngle fails the last two on the unchanged tree (dummy atom cached at the first geometry, placed "
+    "along a Cartesian axis): reported as findings, not waived",
+    "Pair-potential parameter matrices (d0, k, c, bond matrix) are symmetric by meaning; the theorems assume it and the "
+    "generators symmetrise (cconf_gen / RBPotential read one triangle for the energy and both for the gradient); "
+    "_get_bond_matrix's symmetry is checked",
+    "RDihedralPotential / RRingDihedralPotential have no analytic derivative (forward difference inside the C++ code): the "
+    "property says nothing about them; their minimiser's outcome is only histogrammed",
+    "hyper-dual ** float at base exactly 0 (x ** 2.0 at 0 works in the code) is outside pow_triple_correct (Rpower; two-sided "
+    "derivative does not exist on the code's domain [0, inf))",
     "VectorHyperDual ** k at value exactly 0.0 with k in {0, 1} raises ValueError (x0**(k-2) is evaluated): treated as a "
     "singular point of the implementation's formula (logged as an observation, no derivative is returned)",
 ]
@@ -61,7 +72,14 @@ RULE = ("streams: (trees-qc) random operation trees over {+,-,x,/,neg,number+,nu
         "interpolations in which two atoms pass within 0.3-0.9 A of each other, and on expanded geometries; (idpp-seq) "
         "one IDPP object and one image: __call__ / grad at successive geometries in several orders, each result vs a fresh "
         "object and vs finite differences at the current geometry; (atan2-band) atan2 trees with the result inside, at the "
-        "edge of and outside 0.1 rad of +-pi/2; (cpp) stationarity of the C++ minimisers' results; "
+        "edge of and outside 0.1 rad of +-pi/2; (stationary) products / quotients / dot / cross / norm with a factor that is "
+        "exactly stationary (or zero) at the point; primitives additionally on lattice (axis-aligned) geometries and with "
+        "coordinates passed as plain arrays or unit-carrying CartesianCoordinates / Coordinates in Angstrom, nm, pm, bohr; each "
+        "primitive object also: value independent of the geometry it saw first, same object invariant under translation and "
+        "rotation; (pic-seq) AnyPIC.get_B at successive geometries (and after a failing request): B matrices handed out "
+        "earlier stay the derivative at their geometry; IDPP / cconf value and gradient under rigid motion; (cpp-rb) mirror of "
+        "RBPotential = pair model = finite differences, opt_rb_coords = steepest descent with that mirror (exponents 2,3,4,6, "
+        "random symmetric k, r0, c), equivariant under rigid motion; "
         "(triples) translated lambda triples vs DifferentiableMath; (singular) a small malformed stream of singular "
         "geometries whose outcome is only histogrammed. distinct = distinct generated case keys per stream")
 
@@ -80,16 +98,21 @@ PINS = [("autode/opt/coordinates/_autodiff.py", q) for q in (
     "get_differentiable_vars", "VectorHyperDual.__init__", "VectorHyperDual._init_deriv_arrays",
     "VectorHyperDual._check_compatible", "VectorHyperDual.copy", "VectorHyperDual.differentiate_wrt",
     "DifferentiableMath.pow", "DifferentiableMath.atan2",
-    "DifferentiableVector3D.__init__", "DifferentiableVector3D.dot", "DifferentiableVector3D.cross")] + [
+    "DifferentiableVector3D.__init__", "DifferentiableVector3D.dot", "DifferentiableVector3D.cross",
+    "DifferentiableVector3D.norm", "DifferentiableVector3D.__add__", "DifferentiableVector3D.__neg__",
+    "DifferentiableVector3D.__sub__", "DifferentiableVector3D.__mul__", "DifferentiableVector3D.__rmul__",
+    "DifferentiableVector3D.__truediv__", "VectorHyperDual.__radd__", "VectorHyperDual.__rmul__", "VectorHyperDual.__rpow__")] + [
     ("autode/opt/coordinates/primitives.py", q) for q in (
         "_get_3d_vecs_from_atom_idxs", "Primitive.__call__", "Primitive.derivative", "Primitive.second_derivative")] + [
     ("autode/neb/idpp.py", q) for q in (
         "IDPP.__init__", "IDPP.__call__", "IDPP.grad", "IDPP._set_distance_matrices", "IDPP._req_distance_matrix",
         "IDPP._distance_matrix", "IDPP._weight_matrix")] + [
-    ("autode/conformers/conf_gen.py", "_get_bond_matrix")]
+    ("autode/conformers/conf_gen.py", "_get_bond_matrix"), ("autode/opt/coordinates/internals.py", "PIC.get_B")]
 # non-Python sources Model.ff_term/ff_coef, Calculus.ff_energy/ff_grad and the Python mirrors rb_energy / Erep were read
 # from: pinned as whitespace-normalised whole files in coq/C07/pins_text.json (common.source_pins handles .py only)
-TEXT_PINS = ["autode/conformers/cconf_gen.pyx", "autode/ext/src/potentials.cpp", "autode/ext/ade_rb_opt.pyx"]
+TEXT_PINS = ["autode/conformers/cconf_gen.pyx", "autode/ext/src/potentials.cpp", "autode/ext/ade_rb_opt.pyx",
+             "autode/ext/src/molecule.cpp", "autode/ext/src/optimisers.cpp", "autode/ext/ade_dihedrals.pyx",
+             "autode/ext/include/potentials.h", "autode/ext/include/optimisers.h", "autode/ext/include/molecule.h"]
 
 
 def _text_hashes():
@@ -174,10 +197,11 @@ def fd_judge(analytic, fd_h, fd_2h, tol):
 class FD:
     """Collects the comparison of analytic arrays with finite differences for one case."""
 
-    def __init__(self):
+    def __init__(self, scale=1.0):
         self.bad = []
         self.unstable = 0
         self.n = 0
+        self.scale = scale        # length of 1 Angstrom in the units of the coordinates: steps are scaled with it
 
     def entry(self, what, idx, analytic, e1, e2, tol):
         self.n += 1
@@ -188,20 +212,21 @@ class FD:
             self.unstable += 1
 
     def gradient(self, f, x, g, idxs=None, wrap=False, what="first derivative", h=H1):
+        h = h * self.scale
         for i in (range(len(x)) if idxs is None else idxs):
             self.entry(what, [int(i)], g[i], central(f, x, i, h, wrap), central(f, x, i, 2 * h, wrap), TOL1)
 
     def hessian_from_gradient(self, gf, x, Hm, idxs=None, what="second derivative (difference of the first derivative)"):
         idxs = list(range(len(x))) if idxs is None else list(idxs)
         for j in idxs:
-            c1, c2 = central(gf, x, j, H1), central(gf, x, j, 2 * H1)
+            c1, c2 = central(gf, x, j, H1 * self.scale), central(gf, x, j, 2 * H1 * self.scale)
             for i in idxs:
                 self.entry(what, [int(i), int(j)], Hm[i][j], c1[i], c2[i], TOL1)
 
     def hessian_from_value(self, f, x, Hm, pairs, wrap=False, what="second derivative (second difference of the value)"):
         for i, j in pairs:
-            self.entry(what, [int(i), int(j)], Hm[i][j], second_diff(f, x, i, j, H2, wrap),
-                       second_diff(f, x, i, j, 2 * H2, wrap), TOL2)
+            self.entry(what, [int(i), int(j)], Hm[i][j], second_diff(f, x, i, j, H2 * self.scale, wrap),
+                       second_diff(f, x, i, j, 2 * H2 * self.scale, wrap), TOL2)
 
 
 # =============================================================================================
@@ -504,6 +529,33 @@ def stream_atan2_band(ctx, A, full):
     return nfind
 
 
+def stream_stationary(ctx, A, full):
+    """Products / quotients / dot products in which one factor is EXACTLY stationary at the evaluation point (zero
+    gradient, non-zero curvature), incl. factors whose value is 0 there: the second derivative must keep the factor's
+    curvature."""
+    rng = ctx.rng
+    nfind = 0
+    for rep in range(8 if full else 2):
+        x = [rng.randrange(-12, 13) / 8.0 for _ in range(3)]
+        x[1] = x[1] or 0.625
+        c = rng.choice([0.0, 1.5, -0.75])
+        S0 = ["pow", ["subs", ["var", 0], x[0]], 2]                    # (v0 - x0)^2 : value 0, gradient 0, curvature 2
+        S = S0 if c == 0.0 else ["rsub", S0, c]                        # c - (v0 - x0)^2
+        S2 = ["adds", ["mul", ["subs", ["var", 2], x[2]], ["subs", ["var", 2], x[2]]], 2.0]
+        templates = [["mul", S, ["var", 1]], ["mul", ["var", 1], S], ["mul", ["exp", ["var", 2]], S], ["mul", S, S2],
+                     ["mul", ["mul", S, ["var", 1]], ["var", 2]], ["div", ["var", 1], ["rsub", S0, 1.5]],
+                     ["dot", [S, ["var", 1], ["var", 2]], [["var", 1], ["var", 2], ["var", 0]]],
+                     ["cross", [S, ["var", 1], ["var", 2]], [["var", 2], S2, ["var", 1]], 2],
+                     ["norm", [["adds", S0, 1.0], ["var", 1], ["subs", ["var", 2], x[2]]]],
+                     ["mul", ["sqrt", ["adds", S0, 1.0]], ["var", 1]]]
+        for t in templates:
+            if usable(A, t, x) is None:
+                continue
+            ctx.count("stationary", (json.dumps(t), x), sample={"tree": t, "x": x})
+            nfind += report_tree(ctx, A, t, x, "stationary")
+    return nfind
+
+
 _reported = {}
 
 
@@ -511,7 +563,7 @@ def report(ctx, key, what, rep):
     fam = key.split("|")[0] + "|*"
     _reported[key] = _reported.get(key, 0) + 1
     _reported[fam] = _reported.get(fam, 0) + 1
-    if _reported[key] <= MAXFIND and (_reported[fam] <= MAXSTREAM or _reported[key] == 1 and _reported[fam] <= 3 * MAXSTREAM):
+    if _reported[key] == 1 or (_reported[key] <= MAXFIND and _reported[fam] <= MAXSTREAM):   # a key's first case is always reported
         ctx.finding(key, what, rep)
     return 1
 
@@ -793,6 +845,60 @@ def primitive_cases(ctx, P, full):
             yield cls, kw, rand_geometry(rs, n), "non-unit-coefficients"
 
 
+def geometry_ok(cls, kw, X):
+    deg = math.degrees
+    if "BondAngle" in cls:
+        return 20 < deg(angle(X[kw["m"]], X[kw["o"]], X[kw["n"]])) < 160
+    if "Dihedral" in cls:
+        return 35 < deg(angle(X[kw["m"]], X[kw["o"]], X[kw["p"]])) < 145 and 35 < deg(angle(X[kw["o"]], X[kw["p"]], X[kw["n"]])) < 145
+    if cls == "PrimitiveLinearAngle":
+        return 30 < deg(angle(X[kw["m"]], X[kw["o"]], X[kw["r"]])) < 150
+    return True
+
+
+def lattice_cases(ctx, P, full):
+    """Axis-aligned / lattice geometries: coordinates are small integers, so components of bond vectors vanish exactly,
+    factors of products are exactly stationary and hyper-dual powers are taken at the value 0."""
+    rng = ctx.rng
+    rs = np.random.RandomState(rng.randrange(2 ** 31))
+    ARGS = {"PrimitiveDistance": "ij", "PrimitiveInverseDistance": "ij", "ConstrainedPrimitiveDistance": "ij",
+            "PrimitiveBondAngle": "mon", "ConstrainedPrimitiveBondAngle": "mon", "PrimitiveDihedralAngle": "mopn",
+            "PrimitiveImproperDihedral": "mopn", "PrimitiveLinearAngle": "monr", "PrimitiveDummyLinearAngle": "mon"}
+    for rep in range(4 if full else 1):
+        for cls, names in ARGS.items():
+            for axis in (("BEND", "COMPLEMENT") if "Linear" in cls else (None,)):
+                for _ in range(300):
+                    n = rng.choice([5, 6])
+                    pts = set()
+                    while len(pts) < n:
+                        pts.add(tuple(int(v_) for v_ in rs.randint(-2, 3, size=3)))
+                    X = np.array(sorted(pts), float)[rs.permutation(n)]
+                    kw = dict(zip(names, rng.sample(range(n), len(names))))
+                    if "Linear" in cls:       # m-o along one Cartesian axis, n on the other side, reference atom along another axis
+                        e = np.eye(3)[rs.permutation(3)]
+                        X[kw["o"]] = 0.0
+                        X[kw["m"]], X[kw["n"]] = e[0], -e[0] * rng.choice([1, 2]) + e[2] * rng.choice([0, 0, 1])
+                        if "r" in kw:
+                            X[kw["r"]] = e[1] * rng.choice([1, 2])
+                        kw["axis"] = axis
+                    if cls.startswith("Constrained"):
+                        kw["value"] = 1.5
+                    if len({tuple(r_) for r_ in X.tolist()}) == n and geometry_ok(cls, kw, X):
+                        yield cls, kw, X, "lattice"
+                        break
+        for cls in ("CompositeBonds", "ConstrainedCompositeBonds"):
+            n = 5
+            pts = set()
+            while len(pts) < n:
+                pts.add(tuple(int(v_) for v_ in rs.randint(-2, 3, size=3)))
+            X = np.array(sorted(pts), float)
+            i, j, k = rng.sample(range(n), 3)
+            kw = {"bonds": [[i, j], [j, i], [j, k]], "coeffs": [1.5, -0.5, 2.0]}      # both (i,j) and (j,i)
+            if cls.startswith("Constrained"):
+                kw["value"] = 0.4
+            yield cls, kw, X, "lattice"
+
+
 def make_primitive(P, cls, kw):
     kw = dict(kw)
     if "axis" in kw:
@@ -808,15 +914,42 @@ def primitive_atoms(kw):
     return [kw[k] for k in ("i", "j", "m", "o", "p", "n", "r") if k in kw]
 
 
-def check_primitive(P, cls, kw, X, rs):
-    """-> (failures list, n_unstable, info dict with arrays for the Coq placement check)."""
+CONTAINERS = {                      # name -> (class path, unit, length of 1 Angstrom in that unit)
+    "ndarray": (None, None, 1.0),
+    "cartesian-ang": ("CartesianCoordinates", "ang", 1.0),
+    "cartesian-nm": ("CartesianCoordinates", "nm", 0.1),
+    "cartesian-pm": ("CartesianCoordinates", "pm", 100.0),
+    "coordinates-a0": ("Coordinates", "a0", 1.0 / 0.529177210903),
+}
+
+
+def container_wrap(name):
+    """-> function turning a flat float array (already in the container's unit) into the coordinate object the package
+    would pass (plain ndarray, unit-carrying CartesianCoordinates / Coordinates)."""
+    kind, unit, _ = CONTAINERS[name]
+    if kind is None:
+        return lambda y: np.array(y, float)
+    if kind == "CartesianCoordinates":
+        from autode.opt.coordinates import CartesianCoordinates
+        return lambda y: CartesianCoordinates(np.array(y, float), units=unit)
+    from autode.values import Coordinates
+    return lambda y: Coordinates(np.array(y, float).reshape(-1, 3), units=unit)
+
+
+def check_primitive(P, cls, kw, X, rs, container="ndarray"):
+    """The value function of a primitive is the object's own __call__ (ONE object, as the optimisers use it): its
+    derivative / second_derivative are compared with finite differences of that function, its value must not depend on
+    which geometry the object saw first, and it must be invariant when the same object is evaluated on a rigidly moved
+    geometry.  -> (failures list, n_unstable, info dict with arrays for the Coq placement check)."""
     prim = make_primitive(P, cls, kw)
-    x0 = X.flatten().astype(float)
+    scale = CONTAINERS[container][2]
+    wrap_c = container_wrap(container)
+    x0 = X.flatten().astype(float) * scale
     natoms = len(x0) // 3
     is_dih = "Dihedral" in cls
-    val0 = prim(x0)                       # also fixes the dummy atom of PrimitiveDummyLinearAngle
-    g = prim.derivative(x0)
-    Hm = prim.second_derivative(x0)
+    val0 = prim(wrap_c(x0))
+    g = np.array(np.asarray(prim.derivative(wrap_c(x0))), dtype=float)      # plain arrays (drop the unit-carrying subclass)
+    Hm = np.array(np.asarray(prim.second_derivative(wrap_c(x0))), dtype=float)
     fails = []
     if not (math.isfinite(val0) and np.all(np.isfinite(g)) and np.all(np.isfinite(Hm))):
         return [{"what": "non-finite value or derivative at a non-singular geometry"}], 0, None
@@ -832,29 +965,35 @@ def check_primitive(P, cls, kw, X, rs):
     asym = float(np.abs(Hm - Hm.T).max())
     if asym > 1e-10 * max(1.0, float(np.abs(Hm).max())):
         fails.append({"what": "second-derivative matrix is not symmetric", "max_asymmetry": asym})
-    fd = FD()
-    f = lambda y: prim(y)                  # noqa: E731
+    fd = FD(scale)
+    f = lambda y: prim(wrap_c(y))                  # noqa: E731
     fd.gradient(f, x0, g, wrap=is_dih)     # ALL Cartesian components, uninvolved ones included
-    fd.hessian_from_gradient(lambda y: prim.derivative(y), x0, Hm, idxs=involved)
+    fd.hessian_from_gradient(lambda y: np.asarray(prim.derivative(wrap_c(y)), float), x0, Hm, idxs=involved)
     pairs = [(rs.choice(involved), rs.choice(involved)) for _ in range(8)] + [(i, i) for i in rs.choice(involved, 3)]
     fd.hessian_from_value(f, x0, Hm, pairs, wrap=is_dih)
     fails += fd.bad
-    # rigid motion
-    R, tvec = rand_rotation(rs), rs.uniform(-3, 3, size=3)
-    if cls == "PrimitiveDummyLinearAngle":
-        Y = X + tvec                       # translation only (dummy atom is tied to the Cartesian axes)
-    else:
-        Y = X @ R.T + tvec
-    v2 = make_primitive(P, cls, kw)(Y.flatten())
-    dv = wrap_angle(v2 - val0) if is_dih else v2 - val0
+    # the value is a function of the geometry only: an object that first saw another geometry gives the same value
+    other = make_primitive(P, cls, kw)
+    other(wrap_c(x0 + scale * rs.uniform(-0.3, 0.3, size=len(x0))))
+    v_hist = other(wrap_c(x0))
+    dv = wrap_angle(v_hist - val0) if is_dih else v_hist - val0
     if abs(dv) > 1e-8 * max(1.0, abs(val0)):
-        fails.append({"what": "value changes under a rigid motion", "before": float(val0), "after": float(v2)})
+        fails.append({"what": "value depends on the geometry the object evaluated first", "fresh_object": float(val0),
+                      "object_first_evaluated_elsewhere": float(v_hist)})
+    # rigid motion, SAME object (the value function is the one whose derivatives were checked above)
+    R, tvec = rand_rotation(rs), rs.uniform(-3, 3, size=3)
+    for label, Y in (("translation", X + tvec), ("rotation + translation", X @ R.T + tvec)):
+        v2 = prim(wrap_c(Y.flatten() * scale))
+        dv = wrap_angle(v2 - val0) if is_dih else v2 - val0
+        if abs(dv) > 1e-8 * max(1.0, abs(val0)):
+            fails.append({"what": "value changes under a rigid motion", "motion": label, "before": float(val0), "after": float(v2)})
+            break
     # arrays for the placement model
     A = sys.modules["autode.opt.coordinates._autodiff"]
-    r1 = prim._evaluate(x0, A.DerivativeOrder.first)
-    r2 = prim._evaluate(x0, A.DerivativeOrder.second)
-    info = {"symbols": [int(s) for s in r2._symbols], "g": r1._first_der.tolist(), "h": r2._second_der.tolist(),
-            "outg": g.tolist(), "outh": Hm.tolist(), "n3": len(x0), "natoms": natoms}
+    r1 = prim._evaluate(wrap_c(x0), A.DerivativeOrder.first)
+    r2 = prim._evaluate(wrap_c(x0), A.DerivativeOrder.second)
+    info = {"symbols": [int(s_) for s_ in r2._symbols], "g": r1._first_der.tolist(), "h": r2._second_der.tolist(),
+            "outg": np.asarray(g, float).tolist(), "outh": np.asarray(Hm, float).tolist(), "n3": len(x0), "natoms": natoms}
     return fails, fd.unstable, info
 
 
@@ -865,30 +1004,38 @@ def stream_primitives(ctx, P, full):
     seen_cls = set()
     placed = set()
     n_place = 0
-    for cls, kw, X, tag in primitive_cases(ctx, P, full):
+    unit_containers = [c_ for c_ in CONTAINERS if c_ != "ndarray"]
+    for cls, kw, X, tag in itertools.chain(primitive_cases(ctx, P, full), lattice_cases(ctx, P, full)):
         seen_cls.add(cls)
+        container = ctx.rng.choice(unit_containers) if ctx.rng.random() < 0.3 else "ndarray"
         ctx.count("primitives", (cls, json.dumps(kw, sort_keys=True), X.round(6).tolist()),
                   sample={"class": cls, "args": kw, "tag": tag})
         ctx.hist("primitives", f"{cls}:{tag.split('=')[0]}")
-        rep = {"kind": "primitive", "class": cls, "args": kw, "coords": X.tolist()}
+        ctx.hist("primitives", f"container:{container}")
+        rep = {"kind": "primitive", "class": cls, "args": kw, "coords": X.tolist(), "container": container}
         try:
-            fails, unstable, info = check_primitive(P, cls, kw, X, rs)
+            fails, unstable, info = check_primitive(P, cls, kw, X, rs, container)
         except Exception as e:   # noqa: BLE001  a crash on a non-singular geometry is a failure to provide the derivative
             nfind += report(ctx, f"primitive|{cls}|raises", f"{cls}({kw}) raised {type(e).__name__}: {e} at a non-singular geometry", rep)
             continue
         if unstable:
             ctx.hist("primitives", "fd-unstable-entries-skipped")
-        if fails:
-            kind = fails[0]["what"].split(" (")[0]
-            rep["failures"] = fails[:6]
-            nfind += report(ctx, f"primitive|{cls}|{kind}", f"{cls}({kw}) [{tag}]: {fails[0]['what']} "
-                            f"{json.dumps({k: v for k, v in fails[0].items() if k != 'what'})}", rep)
+        seen_kinds = set()
+        for fl in fails:
+            kind = fl["what"].split(" (")[0]
+            if kind in seen_kinds:
+                continue
+            seen_kinds.add(kind)
+            rep_k = dict(rep, failures=[x_ for x_ in fails if x_["what"].split(" (")[0] == kind][:6])
+            nfind += report(ctx, f"primitive|{cls}|{kind}", f"{cls}({kw}) [{tag}, coordinates as {container}]: {fl['what']} "
+                            f"{json.dumps({k: v for k, v in fl.items() if k != 'what'})}", rep_k)
         # placement vs the Coq model (exact); a subset keeps the Coq input small
         if info is not None and ((full and n_place < 120) or (n_place < 14 and cls not in placed)):
             placed.add(cls)
             atoms = [s // 3 for s in info["symbols"][0::3]]
             want_syms = [3 * a + k for a in atoms for k in range(3)]
-            if info["symbols"] != want_syms:
+            expect = primitive_atoms(kw)       # the atoms the primitive was CONSTRUCTED with (order matters except for bond sums)
+            if info["symbols"] != want_syms or (sorted(atoms) != sorted(expect) if "bonds" in kw else atoms != expect):
                 nfind += report(ctx, f"primitive|{cls}|symbols", f"{cls}({kw}): hyper-dual symbols {info['symbols']} are not the "
                                 f"Cartesian indices of its atoms", rep)
                 continue
@@ -1002,6 +1149,15 @@ def check_idpp_case(IDPP, imgs_coords, k, want_model=True):
         return float(idpp(SimpleNamespace(name=im.name, iteration=0, coordinates=y.reshape(n, 3))))
     fd = FD()
     fd.gradient(f, x0, G.flatten(), what="IDPP.grad", h=fd_step(x0))
+    # rigid motion of the evaluated image (targets r^k are fixed numbers): value invariant, gradient co-rotates
+    rs_ = np.random.RandomState(int(abs(x0[0]) * 1e6) % (2 ** 31))
+    R, t = rand_rotation(rs_), rs_.uniform(-3, 3, size=3)
+    im_r = SimpleNamespace(name=im.name, iteration=0, coordinates=im.coordinates @ R.T + t)
+    idpp_r = IDPP(imgs)          # a fresh object: no history
+    E_r, G_r = float(idpp_r(im_r)), np.array(idpp_r.grad(im_r), float)
+    if abs(E_r - E) > 1e-9 * max(1.0, abs(E)) or not np.allclose(G_r, G @ R.T, rtol=1e-8, atol=1e-8 * max(1.0, np.abs(G).max())):
+        fd.bad.append({"what": "IDPP value / gradient change under a rigid motion of the image", "value": E, "moved": E_r,
+                       "max_gradient_difference": float(np.abs(G_r - G @ R.T).max())})
     info = {"X": im.coordinates.tolist(), "C": np.array(idpp._req_distance_matrix(im)).tolist(),
             "R": np.array(idpp._distance_matrix(im)).tolist(), "E": E, "G": G.tolist(), "n": n}
     return fd, info
@@ -1092,6 +1248,63 @@ def stream_idpp_sequences(ctx, full):
     return nfind
 
 
+def check_pic_sequence(P, prim_specs, geoms, singular=None):
+    """One AnyPIC object: B matrices requested at successive geometries must each stay equal to the stacked
+    Primitive.derivative at the geometry they were requested for, whatever is requested afterwards (also when a later
+    request raises at a singular geometry).  -> failures"""
+    from autode.opt.coordinates.internals import AnyPIC
+    pic = AnyPIC(*[make_primitive(P, c_, k_) for c_, k_ in prim_specs])
+    fails, held = [], []
+    for gi, X in enumerate(geoms):
+        x = np.array(X, float).flatten()
+        B = pic.get_B(x)
+        want = np.array([np.asarray(make_primitive(P, c_, k_).derivative(x), float) for c_, k_ in prim_specs])
+        if not np.allclose(np.asarray(B, float), want, rtol=1e-12, atol=1e-12):
+            fails.append({"what": "PIC.get_B row is not Primitive.derivative at the requested geometry", "geometry": gi})
+        held.append((gi, B, want))
+        fd = FD()
+        fd.gradient(lambda y: float(pic(y)[0]), x, np.asarray(B, float)[0], what=f"PIC.get_B row 0 at geometry {gi} vs finite differences of PIC.__call__")
+        fails += fd.bad[:2]
+    if singular is not None:
+        try:
+            pic.get_B(np.array(singular, float).flatten())
+        except Exception:   # noqa: BLE001  expected: singular geometry
+            pass
+    for gi, B, want in held:
+        if not np.allclose(np.asarray(B, float), want, rtol=1e-12, atol=1e-12):
+            i_ = np.unravel_index(int(np.argmax(np.abs(np.asarray(B, float) - want))), want.shape)
+            fails.append({"what": "a B matrix returned earlier was changed by a later PIC.get_B call", "geometry": gi,
+                          "index": [int(i_[0]), int(i_[1])], "now": float(np.asarray(B, float)[i_]), "derivative_at_its_geometry": float(want[i_])})
+    return fails
+
+
+def stream_pic_sequences(ctx, P, full):
+    rng = ctx.rng
+    rs = np.random.RandomState(rng.randrange(2 ** 31))
+    nfind = 0
+    for rep in range(6 if full else 2):
+        n = 5
+        for _ in range(100):
+            X = rand_geometry(rs, n)
+            if 25 < math.degrees(angle(X[0], X[1], X[2])) < 155 and 35 < math.degrees(angle(X[1], X[2], X[3])) < 145:
+                break
+        specs = [("PrimitiveDistance", {"i": 0, "j": 1}), ("PrimitiveBondAngle", {"m": 0, "o": 1, "n": 2}),
+                 ("PrimitiveDihedralAngle", {"m": 0, "o": 1, "p": 2, "n": 3}), ("PrimitiveInverseDistance", {"i": 2, "j": 4})]
+        geoms = [X] + [X + rs.uniform(-0.15, 0.15, size=X.shape) for _ in range(2)]
+        sing = X.copy()
+        sing[2] = sing[1] + 1.3 * (sing[1] - sing[0]) / np.linalg.norm(sing[1] - sing[0])     # exactly linear 0-1-2
+        rep_ = {"kind": "pic-seq", "primitives": [[c_, k_] for c_, k_ in specs], "geometries": [g_.tolist() for g_ in geoms],
+                "singular": sing.tolist() if rep % 2 else None}
+        ctx.count("pic-seq", (rep, X.round(5).tolist()), sample={"n_primitives": len(specs), "geometries": len(geoms),
+                                                                 "then_singular_request": bool(rep % 2)})
+        fails = check_pic_sequence(P, specs, geoms, sing if rep % 2 else None)
+        if fails:
+            rep_["failures"] = fails[:6]
+            nfind += report(ctx, "pic|get_B-sequence", f"AnyPIC.get_B at {len(geoms)} successive geometries: {fails[0]['what']} "
+                            f"{json.dumps({k_: v_ for k_, v_ in fails[0].items() if k_ != 'what'})}", rep_)
+    return nfind
+
+
 def cconf_case_specs(ctx, rs, full):
     rng = ctx.rng
     for c in range(40 if full else 5):
@@ -1114,6 +1327,13 @@ def check_cconf_case(cconf_gen, X, bm, d0, kk, cc, ex, fixed=None):
     G = np.array(cconf_gen.dvdr(x0, bm, kk, d0, cc, ex, empty), float)
     fd = FD()
     fd.gradient(f, x0, G, what="cconf_gen.dvdr", h=fd_step(x0))
+    rs_ = np.random.RandomState(int(abs(x0[0]) * 1e6) % (2 ** 31))
+    R, t = rand_rotation(rs_), rs_.uniform(-3, 3, size=3)
+    xr = (np.asarray(X, float) @ R.T + t).flatten()
+    E0, Er = f(x0), f(xr)
+    Gr = np.array(cconf_gen.dvdr(xr, bm, kk, d0, cc, ex, empty), float).reshape(n, 3)
+    if abs(Er - E0) > 1e-9 * max(1.0, abs(E0)) or not np.allclose(Gr, G.reshape(n, 3) @ R.T, rtol=1e-8, atol=1e-8 * max(1.0, np.abs(G).max())):
+        fd.bad.append({"what": "cconf_gen value / gradient change under a rigid motion", "value": E0, "moved": Er})
     if fixed is not None:
         Gf = np.array(cconf_gen.dvdr(x0, bm, kk, d0, cc, ex, fixed), float).reshape(n, 3)
         free = [i for i in range(n) if i not in set(fixed.tolist())]
@@ -1142,14 +1362,24 @@ def stream_pairs(ctx, full, coq_full=None):
             ctx.hist("idpp", "fd-unstable-entries-skipped")
         if fd.bad:
             rep["failures"] = fd.bad[:6]
-            nfind += report(ctx, "idpp|grad-vs-call", f"IDPP with {n} atoms, image {k} of {nimg} [{tag}, closest pair {rmin:.3f} A]: grad entry "
-                            f"{fd.bad[0]['index']} = {fd.bad[0]['analytic']!r}, finite difference of __call__ = "
-                            f"{fd.bad[0]['finite_difference']!r}", rep)
+            key = "idpp|rigid-motion" if "rigid" in fd.bad[0]["what"] else "idpp|grad-vs-call"
+            nfind += report(ctx, key, f"IDPP with {n} atoms, image {k} of {nimg} [{tag}, closest pair {rmin:.3f} A]: {fd.bad[0]['what']} "
+                            f"{json.dumps({k_: v_ for k_, v_ in fd.bad[0].items() if k_ != 'what'})}", rep)
         if n <= (4 if coq_full else 3) and (want_coq or (coq_full and ncoq < 40)):
             ncoq += 1
             terms.append(f"check_idpp {n} {qc_mat(info['X'])} {qc_mat(info['C'])} {qc_mat(info['R'])} {qc(info['E'])} {qc_mat(info['G'])}")
             descr.append(rep)
             ctx.count("pairs-qc", ("idpp", tag, n, nimg, k, np.asarray(coords[k]).round(5).tolist()))
+    # the pair theorems assume symmetric parameter matrices: the package's own builder of the bond matrix must give one
+    from autode.conformers.conf_gen import _get_bond_matrix
+    for c_ in range(20 if full else 4):
+        n = ctx.rng.choice([3, 5, 8])
+        prs = [tuple(ctx.rng.sample(range(n + 1), 2)) for _ in range(n)]
+        bmx = _get_bond_matrix(n_atoms=n, bonds=prs[: n // 2 + 1], fixed_bonds=prs[n // 2 + 1:])
+        ctx.count("cconf", ("bond-matrix", n, prs), nontrivial=False)
+        if not np.array_equal(bmx, bmx.T) or bmx.dtype != np.intc:
+            nfind += report(ctx, "cconf|bond-matrix-asymmetric", f"_get_bond_matrix({n}, {prs}) is not a symmetric intc matrix: calc_energy reads "
+                            f"the lower and calc_deriv both triangles", {"kind": "bond-matrix", "n": n, "bonds": prs})
     ncoq = 0
     for tag, X, pair, want_coq in cconf_case_specs(ctx, rs, full):
         n = len(X)
@@ -1161,7 +1391,7 @@ def stream_pairs(ctx, full, coq_full=None):
             bm[pair[0], pair[1]] = bm[pair[1], pair[0]] = ctx.rng.choice([0, 1, 2])   # the swept pair: free, bonded or fixed
         d0 = rs.uniform(0.9, 2.0, size=(n, n))
         d0 = (d0 + d0.T) / 2
-        kk, cc, ex = ctx.rng.choice([0.5, 1.0, 2.5]), ctx.rng.choice([0.01, 0.3, 0.8]), ctx.rng.choice([2, 4, 8])
+        kk, cc, ex = ctx.rng.choice([0.5, 1.0, 2.5]), ctx.rng.choice([0.01, 0.3, 0.8]), ctx.rng.choice([2, 3, 4, 5, 8])
         rmin = min_pair_distance(X)
         fixed = np.array(sorted(ctx.rng.sample(range(n), ctx.rng.randrange(0, n))), dtype=int)
         rep = {"kind": "cconf", "coords": np.asarray(X).tolist(), "bond_matrix": bm.tolist(), "d0": d0.tolist(), "k": kk, "c": cc,
@@ -1174,7 +1404,7 @@ def stream_pairs(ctx, full, coq_full=None):
             ctx.hist("cconf", "fd-unstable-entries-skipped")
         if fd.bad:
             rep["failures"] = fd.bad[:6]
-            nfind += report(ctx, "cconf|dvdr-vs-v", f"cconf_gen with {n} atoms, exponent {ex} [{tag}, closest pair {rmin:.3f} A]: {fd.bad[0]['what']} "
+            nfind += report(ctx, "cconf|rigid-motion" if "rigid" in fd.bad[0]["what"] else "cconf|dvdr-vs-v", f"cconf_gen with {n} atoms, exponent {ex} [{tag}, closest pair {rmin:.3f} A]: {fd.bad[0]['what']} "
                             f"{json.dumps({k_: v_ for k_, v_ in fd.bad[0].items() if k_ != 'what'})}", rep)
         if n <= (4 if coq_full else 3) and (want_coq or (coq_full and ncoq < 40)):
             ncoq += 1
@@ -1199,70 +1429,163 @@ def rb_energy(X, bonded, r0, k, c, ex):
     return e
 
 
+def rb_mirror_energy(X, bonds, r0, k, c, ex):
+    """RBPotential::set_energy (potentials.cpp:251-276): unique pairs j > i, upper-triangle parameters, r from
+    Molecule::distance (molecule.cpp:41-75)."""
+    n, e = len(X), 0.0
+    for i in range(n):
+        for j in range(i + 1, n):
+            d = X[i] - X[j]
+            r = math.sqrt(d[0] * d[0] + d[1] * d[1] + d[2] * d[2])
+            e += c[i, j] / math.pow(r, ex)
+            if bonds[i, j]:
+                e += k[i, j] * math.pow(r - r0[i, j], 2)
+    return e
+
+
+def rb_mirror_energy_grad(X, bonds, r0, k, c, ex):
+    """RBPotential::set_energy_and_grad (potentials.cpp:278-336), operation by operation."""
+    n = len(X)
+    g, e = np.zeros((n, 3)), 0.0
+    for i in range(n):
+        for j in range(n):
+            if i == j:
+                continue
+            d = X[i] - X[j]
+            r = math.sqrt(d[0] * d[0] + d[1] * d[1] + d[2] * d[2])
+            e_rep = c[i, j] / math.pow(r, ex)
+            e += 0.5 * e_rep
+            g[i] += -(e_rep * float(ex) / math.pow(r, 2)) * d
+            if bonds[i, j]:
+                e += 0.5 * k[i, j] * math.pow(r - r0[i, j], 2)
+                g[i] += (2.0 * k[i, j] * (1.0 - r0[i, j] / r)) * d
+    return e, g
+
+
+def rb_mirror_opt(X0, bonds, r0, k, c, ex, max_iter=500, tol=1e-6, init_step=0.3):
+    """SDOptimiser::run (optimisers.cpp:38-113) as called by ade_rb_opt.opt_rb_coords (500, 1E-6, 0.3).
+    -> (final coordinates, smallest relative margin of any accept/reject decision)"""
+    X = np.array(X0, float)
+    mol_e, curr, it, margin = 0.0, 99999999.9, 0, 1.0
+    while abs(mol_e - curr) > tol and it <= max_iter:
+        margin = min(margin, abs(abs(mol_e - curr) - tol) / tol)
+        curr, micro, step = mol_e, 0, init_step
+        mol_e, g = rb_mirror_energy_grad(X, bonds, r0, k, c, ex)
+        while micro < 20:
+            cme = mol_e
+            X = X - step * g
+            mol_e = rb_mirror_energy(X, bonds, r0, k, c, ex)
+            if step < 1e-3:
+                break
+            margin = min(margin, abs(mol_e - cme) / max(1.0, abs(cme)))
+            if micro == 0 and mol_e > cme:
+                X = X + step * g
+                mol_e = cme
+                step *= 0.5
+                continue
+            if mol_e > cme:
+                X = X + step * g
+                break
+            micro += 1
+        it += 1
+    margin = min(margin, abs(abs(mol_e - curr) - tol) / tol)
+    return X, margin
+
+
+def rb_case(ctx, rs, n):
+    X = rand_geometry(rs, n, dmin=0.9)
+    bonds = np.zeros((n, n), dtype=bool)
+    for i in range(n - 1):
+        bonds[i, i + 1] = bonds[i + 1, i] = True
+    if n > 3 and ctx.rng.random() < 0.5:
+        bonds[0, n - 1] = bonds[n - 1, 0] = True
+    sym = lambda M: (M + M.T) / 2     # noqa: E731  (distance / force-constant matrices are symmetric by meaning)
+    r0 = np.where(bonds, sym(rs.uniform(1.0, 1.6, size=(n, n))), 0.0)
+    k = sym(rs.uniform(0.5, 2.0, size=(n, n)))
+    c = sym(rs.uniform(0.1, 1.0, size=(n, n))) * (1.0 if ctx.rng.random() < 0.3 else (1.0 - bonds))
+    return X, bonds, r0, k, c, ctx.rng.choice([2, 3, 4, 6])
+
+
+def check_rb_case(ade_rb_opt, X, bonds, r0, k, c, ex, rs):
+    """No public entry point returns RBPotential's energy or gradient: opt_rb_coords only returns the minimised
+    coordinates.  What CAN be checked: (1) the hand mirror of set_energy / set_energy_and_grad (same operations) is the
+    pair model - gradient = ff_coef-formula, = finite differences of the mirrored energy; (2) the compiled minimiser is a
+    deterministic function of exactly those two routines, so its result must coincide with the mirror of SDOptimiser::run
+    driven by the mirrored energy and gradient (every step is step_size * gradient, every accept/reject compares energies);
+    (3) the result is equivariant under rigid motion.  Cases in which an accept/reject decision is closer than 1e-9 are
+    skipped (rounding could flip it)."""
+    n = len(X)
+    fails = []
+    e1, g = rb_mirror_energy_grad(X, bonds, r0, k, c, ex)
+    e0 = rb_mirror_energy(X, bonds, r0, k, c, ex)
+    gm = np.zeros((n, 3))
+    for i in range(n):
+        for j in range(n):
+            if i != j:
+                r = np.linalg.norm(X[i] - X[j])
+                gm[i] += (-(ex * c[i, j] / r ** (ex + 2)) + 2.0 * (k[i, j] if bonds[i, j] else 0.0) * (1.0 - r0[i, j] / r)) * (X[i] - X[j])
+    if not np.allclose(g, gm, rtol=1e-10, atol=1e-10) or abs(e1 - e0) > 1e-10 * max(1.0, abs(e0)):
+        fails.append({"what": "mirror of RBPotential differs from the pair model ff_term / ff_coef"})
+    fd = FD()
+    fd.gradient(lambda y: rb_mirror_energy(y.reshape(n, 3), bonds, r0, k, c, ex), X.flatten(), g.flatten(),
+                what="RBPotential gradient (mirror) vs finite differences of its energy", h=fd_step(X))
+    fails += fd.bad[:2]
+    Y = np.array(ade_rb_opt.opt_rb_coords(X.copy(), bonds, r0, k, c, ex), float)
+    Ym, margin = rb_mirror_opt(X, bonds, r0, k, c, ex)
+    if margin < 1e-9:
+        return fails, "decision-margin-skipped"
+    if not np.all(np.isfinite(Y)) or np.abs(Y - Ym).max() > 1e-7:
+        i_ = np.unravel_index(int(np.argmax(np.abs(Y - Ym))), Y.shape)
+        fails.append({"what": "opt_rb_coords differs from steepest descent with the modelled RBPotential energy and gradient",
+                      "index": [int(i_[0]), int(i_[1])], "compiled": float(Y[i_]), "model": float(Ym[i_]),
+                      "max_difference": float(np.abs(Y - Ym).max())})
+    R, t = rand_rotation(rs), rs.uniform(-2, 2, size=3)
+    Xr = X @ R.T + t
+    _, margin_r = rb_mirror_opt(Xr, bonds, r0, k, c, ex)
+    if margin_r >= 1e-9:
+        Yr = np.array(ade_rb_opt.opt_rb_coords(Xr.copy(), bonds, r0, k, c, ex), float)
+        if np.abs(Yr - (Y @ R.T + t)).max() > 1e-6:
+            fails.append({"what": "opt_rb_coords is not equivariant under a rigid motion of the input",
+                          "max_difference": float(np.abs(Yr - (Y @ R.T + t)).max())})
+    return fails, "compared"
+
+
 def stream_cpp(ctx, full):
-    """C++ potentials are reachable only through the minimisers: the result of a steepest-descent run driven by the
-    analytic RBPotential gradient must be a point where the finite-difference gradient of the energy (potentials.cpp
-    set_energy, re-computed here from its formula) has (almost) vanished and the energy has not risen."""
+    """C++ RBPotential through its only public entry point (see check_rb_case).  The dihedral potentials
+    (RDihedralPotential / RRingDihedralPotential) have NO analytic derivative - their gradient is a forward difference
+    inside the C++ code (potentials.cpp:121-141) - so the property has nothing to say about them; what the minimiser does
+    with them is only histogrammed."""
     import ade_rb_opt
     import ade_dihedrals
     nfind = 0
     rs = np.random.RandomState(ctx.rng.randrange(2 ** 31))
-    for c_ in range(40 if full else 6):
+    for c_ in range(40 if full else 8):
         n = ctx.rng.choice([3, 4, 5, 6])
-        X = rand_geometry(rs, n, dmin=0.9)
-        bonded = np.zeros((n, n), dtype=bool)
-        for i in range(n - 1):
-            bonded[i, i + 1] = bonded[i + 1, i] = True
-        if n > 3 and ctx.rng.random() < 0.5:
-            bonded[0, n - 1] = bonded[n - 1, 0] = True
-        r0 = np.where(bonded, rs.uniform(1.0, 1.6), 0.0)
-        k = np.ones((n, n))
-        cm = (np.ones((n, n)) - bonded) * ctx.rng.choice([0.2, 0.8])
-        ex = ctx.rng.choice([2, 4])
-        Y = np.array(ade_rb_opt.opt_rb_coords(X.copy(), bonded, r0, k, cm, ex), float)
-        E = lambda Z: rb_energy(Z.reshape(n, 3), bonded, r0, k, cm, ex)   # noqa: E731
-        g0 = np.array([central(E, X.flatten(), i, H1) for i in range(3 * n)])
-        g1 = np.array([central(E, Y.flatten(), i, H1) for i in range(3 * n)])
+        X, bonds, r0, k, cm, ex = rb_case(ctx, rs, n)
         ctx.count("cpp-rb", (n, ex, X.round(5).tolist()), sample={"n_atoms": n, "exponent": ex})
-        rep = {"kind": "cpp-rb", "coords": X.tolist(), "bonded": bonded.tolist(), "r0": r0.tolist(), "c": cm.tolist(), "exponent": ex}
-        if not np.all(np.isfinite(Y)) or E(Y.flatten()) > E(X.flatten()) + 1e-9 or \
-                np.abs(g1).max() > max(0.05, 0.1 * np.abs(g0).max()):
-            nfind += report(ctx, "cpp-rb|not-stationary", f"opt_rb_coords ({n} atoms, exponent {ex}): energy {E(X.flatten()):.6g} -> "
-                            f"{E(Y.flatten()):.6g}, max |finite-difference gradient| {np.abs(g0).max():.3g} -> {np.abs(g1).max():.3g}: the "
-                            f"steepest-descent run driven by RBPotential's analytic gradient did not approach a stationary point", rep)
-    # dihedral minimisation: numerical gradient in the C++ code; result must not raise the repulsion energy
-    for c_ in range(20 if full else 4):
+        rep = {"kind": "cpp-rb", "coords": X.tolist(), "bonded": bonds.tolist(), "r0": r0.tolist(), "k": k.tolist(), "c": cm.tolist(),
+               "exponent": ex}
+        fails, outcome = check_rb_case(ade_rb_opt, X, bonds, r0, k, cm, ex, rs)
+        ctx.hist("cpp-rb", outcome)
+        for fl in fails[:2]:
+            rep["failures"] = fails[:4]
+            key = "cpp-rb|" + ("trajectory" if "opt_rb_coords differs" in fl["what"] else "rigid-motion" if "equivariant" in fl["what"] else "mirror")
+            nfind += report(ctx, key, f"RBPotential ({n} atoms, exponent {ex}): {fl['what']} "
+                            f"{json.dumps({k_: v_ for k_, v_ in fl.items() if k_ != 'what'})}", rep)
+    for c_ in range(10 if full else 2):
         n = ctx.rng.choice([4, 5, 6])
         X = np.zeros((n, 3))
-        for i in range(1, n):        # a zig-zag chain with random torsions
+        for i in range(1, n):
             d = rs.normal(size=3)
-            d /= np.linalg.norm(d)
-            X[i] = X[i - 1] + 1.5 * d
-        d = dist_matrix(X) + 10 * np.eye(n)
-        if d.min() < 0.9:
+            X[i] = X[i - 1] + 1.5 * d / np.linalg.norm(d)
+        if (dist_matrix(X) + 10 * np.eye(n)).min() < 0.9:
             continue
-        axes = np.array([[1, 2]], dtype="i4")
-        rot = np.zeros((1, n), dtype=bool)
+        axes, rot, origins = np.array([[1, 2]], dtype="i4"), np.zeros((1, n), dtype=bool), np.array([2], dtype="i4")
         rot[0, 3:] = True
-        origins = np.array([2], dtype="i4")
-        ang = np.array([0.0])
-        ex = 2
-
-        def Erep(Z):
-            dd = dist_matrix(Z)
-            return sum(1.0 / dd[i, j] ** ex for i in range(n) for j in range(i + 1, n))
-        Y = np.array(ade_dihedrals.rotate(X.copy(), ang, axes, rot, origins, rep_exponent=ex, minimise=True), float)
-        ctx.count("cpp-dihedral", (n, X.round(5).tolist()), sample={"n_atoms": n})
-
-        def Eth(th):
-            return Erep(np.array(ade_dihedrals.rotate(Y.copy(), np.array([th]), axes, rot, origins, rep_exponent=ex, minimise=False), float))
-        slope0 = (Erep(np.array(ade_dihedrals.rotate(X.copy(), np.array([1e-4]), axes, rot, origins), float))
-                  - Erep(np.array(ade_dihedrals.rotate(X.copy(), np.array([-1e-4]), axes, rot, origins), float))) / 2e-4
-        slope1 = (Eth(1e-4) - Eth(-1e-4)) / 2e-4
-        rep = {"kind": "cpp-dihedral", "coords": X.tolist()}
-        if not np.all(np.isfinite(Y)) or Erep(Y) > Erep(X) + 1e-9 or abs(slope1) > max(0.05, 0.5 * abs(slope0)):
-            nfind += report(ctx, "cpp-dihedral|not-stationary", f"ade_dihedrals.rotate(minimise=True) ({n} atoms): repulsion energy "
-                            f"{Erep(X):.6g} -> {Erep(Y):.6g}, dE/dtheta {slope0:.3g} -> {slope1:.3g}", rep)
+        Erep = lambda Z: sum(1.0 / dist_matrix(Z)[i, j] ** 2 for i in range(n) for j in range(i + 1, n))   # noqa: E731
+        Y = np.array(ade_dihedrals.rotate(X.copy(), np.array([0.0]), axes, rot, origins, rep_exponent=2, minimise=True), float)
+        ctx.count("cpp-dihedral", (n, X.round(5).tolist()), nontrivial=False, sample={"n_atoms": n})
+        ctx.hist("cpp-dihedral", "repulsion lowered" if Erep(Y) <= Erep(X) + 1e-9 else "repulsion raised")
     return nfind
 
 
@@ -1325,6 +1648,9 @@ def impl_oracles(ctx, A, P, tinfo, full, boost=False):
     nfind += n
     coq["trees-qc"] = (t, d)
     ctx.log(f"expression trees: {n} failures")
+    n = stream_stationary(ctx, A, full or boost)
+    nfind += n
+    ctx.log(f"products with an exactly stationary factor: {n} failures")
     n = stream_atan2_band(ctx, A, full or boost)
     nfind += n
     ctx.log(f"atan2 trees around +-pi/2: {n} failures")
@@ -1343,6 +1669,9 @@ def impl_oracles(ctx, A, P, tinfo, full, boost=False):
     n = stream_idpp_sequences(ctx, full or boost)
     nfind += n
     ctx.log(f"IDPP call/grad sequences on one image: {n} failures")
+    n = stream_pic_sequences(ctx, P, full or boost)
+    nfind += n
+    ctx.log(f"PIC.get_B sequences on one object: {n} failures")
     n = stream_cpp(ctx, full)
     nfind += n
     ctx.log(f"C++ minimisers: {n} failures")
@@ -1390,6 +1719,12 @@ def run(ctx):
     else:
         ctx.cov["obligations"] += len(ctx.theorems_in("C07/Props.v"))
         ctx.cov["checker_cmd"] = "translator failed closed; proofs not attempted"
+    gen_sha = lambda: (open(os.path.join(COQ, "gen", "C07_Gen.v")).read().split("sha256 = ")[1][:64]      # noqa: E731
+                       if os.path.exists(os.path.join(COQ, "gen", "C07_Gen.v")) else "")
+    if translated and gen_sha() != tinfo["sha256"]:
+        ctx.log("coq/gen/C07_Gen.v was rewritten by a concurrent run on another tree: re-translating and re-building")
+        sh(["python3", f"{VERIF}/tr/translate_c07.py"], timeout=120)
+        proofs_ok, info = ctx.proofs(SLICE, "C07/Props.v", "AV.C07.Props", extra_targets=["C07/Corr.vo"])
     # 3. the property's own oracles on the implementation (always: they give the concrete replays)
     nfind, coq = impl_oracles(ctx, A, P, tinfo, full, boost=bool(pins_changed))
     # 4. model vs implementation
@@ -1403,6 +1738,17 @@ def run(ctx):
             ctx.log(f"  stream {stream}: {len(terms)} cases, {len(bad)} disagreements")
             if err:
                 corr_err = (corr_err or "") + err
+        if (corr_bad or corr_err) and gen_sha() != tinfo["sha256"]:
+            ctx.log("coq/gen/C07_Gen.v changed during the run (concurrent check on another tree): correspondence repeated")
+            sh(["python3", f"{VERIF}/tr/translate_c07.py"], timeout=120)
+            ctx.coq_make(["C07/Corr.vo"])
+            corr_bad, corr_err = [], None
+            for stream, (terms, descr) in coq.items():
+                if terms:
+                    bad, err = ctx.coq_bad_indices(PRE, terms, per_file={"trees-qc": 12, "placement-qc": 3, "pairs-qc": 2}[stream],
+                                                   name="c07r_" + stream.replace("-", "_"))
+                    corr_bad += [(stream, descr[i], terms[i]) for i in bad]
+                    corr_err = (corr_err or "") + err if err else corr_err
         ctx.log(f"correspondence: {len(corr_bad)} disagreements" + (f"; coq error {corr_err[:300]}" if corr_err else ""))
         ctx.cov["disagreements"] = len(corr_bad)
     # 5. decide
@@ -1434,7 +1780,7 @@ def replay(ctx, obj):
     if kind == "tree":
         bad = check_tree_fd(A, r["tree"], r["x"]).bad
     elif kind == "primitive":
-        bad, _, _ = check_primitive(P, r["class"], r["args"], np.array(r["coords"], float), rs)
+        bad, _, _ = check_primitive(P, r["class"], r["args"], np.array(r["coords"], float), rs, r.get("container", "ndarray"))
     elif kind == "idpp":
         from autode.neb.idpp import IDPP
         fd, _ = check_idpp_case(IDPP, [np.array(c, float) for c in r["images"]], r["k"])
@@ -1443,6 +1789,13 @@ def replay(ctx, obj):
         from autode.neb.idpp import IDPP
         bad, _ = check_idpp_sequence(IDPP, [np.array(c, float) for c in r["images"]], r["k"],
                                      [np.array(g, float) for g in r["geometries"]], [tuple(o) for o in r["ops"]])
+    elif kind == "cpp-rb":
+        import ade_rb_opt
+        bad, _ = check_rb_case(ade_rb_opt, np.array(r["coords"], float), np.array(r["bonded"], bool), np.array(r["r0"], float),
+                               np.array(r["k"], float), np.array(r["c"], float), r["exponent"], rs)
+    elif kind == "pic-seq":
+        bad = check_pic_sequence(P, [(c_, k_) for c_, k_ in r["primitives"]], [np.array(g, float) for g in r["geometries"]],
+                                 None if r.get("singular") is None else np.array(r["singular"], float))
     elif kind == "cconf":
         import cconf_gen
         fd, _, _ = check_cconf_case(cconf_gen, np.array(r["coords"], float), np.array(r["bond_matrix"], dtype=np.intc),
@@ -1460,27 +1813,37 @@ def replay(ctx, obj):
 MANIFEST = {
     "technique": "Coq proof over a model regenerated from source (ast translator) + Coquelicot real analysis + "
                  "model/implementation correspondence + finite-difference oracle on generated expressions and geometries",
-    "level_text": ("Machine-checked theorems (coq/C07/Props.v). For every field, every number of variables n and every index pair "
+    "level_text": ("Machine-checked theorems (coq/C07/Props.v, 15). For every field, every number of variables n and every index pair "
                    "i j: the projection (value, d_i, d_j, d_ij) of the hyper-dual operations TRANSLATED from _autodiff.py "
                    "(+, unary -, -, x product rule, Python-number x hyper-dual, every spelling of /, ** -1, ** 2) into the "
-                   "independently defined algebra F[e1,e2]/(e1^2,e2^2) is a homomorphism, apply_operation is the second-order "
-                   "Taylor polynomial, Hessian symmetry is preserved by every operation, variables are seeded as coordinate "
-                   "functions, and Primitive.derivative/second_derivative put exact zeros at every Cartesian index of an atom not "
-                   "involved (closed under the global context). Over R (Coquelicot): for the translated (f,f',f'') lambda "
-                   "triples of sqrt, exp, log, acos, atan and pow (real exponent on x>0, integer exponent on x<>0, integer "
-                   "exponent >= 2 everywhere) f' is the derivative of f and f'' of f' on the asserted domain; both atan2 branch "
-                   "formulas have the polar-angle partials; the IDPP and bonded+repulsive gradient coefficient is term'(r)/r and "
-                   "- lifted by linearity over all pairs, any number of atoms - IDPP.grad / dvdr's array is the derivative of the "
-                   "energy in every Cartesian component; pair energies are rigid-motion invariant."),
-    "level_note": ("NOT mechanised: that jet arithmetic with correct triples yields the gradient/Hessian of the composed n-variable "
-                   "function (standard; Fike & Alonso 2011), the primitives' _evaluate expression trees, DifferentiableVector3D, "
-                   "rigid-motion invariance of primitive values, atan2 itself - these are exercised on every run by central finite "
-                   "differences (h=1e-5, tol 1e-6 + step sensitivity) over random expression trees and all 11 concrete primitive "
-                   "classes x generated non-singular geometries (dihedrals around 0/+-90/180 deg, near-linear bends, non-unit "
-                   "CompositeBonds coefficients), exact-zero / symmetry / rigid-motion checks. Trusted: Coq kernel, Coquelicot, "
-                   "real-number + classical axioms (calculus theorems only), the ast translator (validated each run against "
-                   "VectorHyperDual over Qc and against DifferentiableMath), the hand models of placement / IDPP / force field "
-                   "(tied by exact / 1e-9 correspondence), evR's reading of math.pow. cconf_gen and the C++ potentials are compared "
-                   "numerically only (C++ only through stationarity of the minimisers' results). PrimitiveDummyLinearAngle is "
-                   "by design not rotation invariant (translation checked)."),
+                   "independently defined algebra F[e1,e2]/(e1^2,e2^2) is a homomorphism, Hessian symmetry is preserved by every "
+                   "operation, variables are seeded as coordinate functions, and Primitive.derivative/second_derivative put exact "
+                   "zeros at every Cartesian index of an atom not involved (closed under the global context). Over R (Coquelicot): "
+                   "SOUNDNESS STEP - if the entries (d1 i, d1 j, d2 i j) of hyper-dual families are the first and mixed second "
+                   "partial derivatives of their values along e_i, e_j, so are the entries of the result of every translated "
+                   "operation (+, -, x, number x, /, ** integer, apply_operation with a correct triple, every DifferentiableMath "
+                   "function on its asserted domain, both atan2 branch constructions), starting from seeded variables; for the "
+                   "translated (f,f',f'') triples of sqrt, exp, log, acos, atan and pow (real exponent on x>0, integer exponent on "
+                   "x<>0, integer exponent >= 2 everywhere) f' is the derivative of f and f'' of f'; the atan2 branch formulas have "
+                   "the polar-angle first and second partials; for the pair MODEL (idpp_term / ff_term = the formulas of IDPP, "
+                   "cconf_gen and RBPotential) the gradient coefficient is term'(r)/r and - lifted over all pairs, any number of "
+                   "atoms - the assembled gradient is the derivative of the energy in every Cartesian component; pair-model "
+                   "energies are rigid-motion invariant."),
+    "level_note": ("NOT mechanised: the induction over a concrete expression (the soundness step is proved per operation; no "
+                   "expression datatype, no primitive's _evaluate tree, no DifferentiableVector3D model), that math.atan2's value "
+                   "differs from the differentiated branch by a local constant and that the selected branch is defined "
+                   "(atan2_branch_derivatives_partial), rigid-motion invariance of primitive values, hyper-dual ** float at base 0. "
+                   "These are exercised every run by central finite differences (h=1e-5 scaled to units / closest pair, tol 1e-6 + "
+                   "step sensitivity) over random, stationary-factor and atan2-band expression trees and all 11 concrete primitive "
+                   "classes (random, prescribed-dihedral, near-linear, lattice geometries; plain and unit-carrying coordinates). "
+                   "IDPP / cconf_gen: the executable code is tied to the pair model by finite differences, 1e-9 correspondence "
+                   "with the Coq formulas, call/grad sequences and rigid motions. RBPotential (C++): no entry point exposes its "
+                   "energy or gradient; tied only by a pinned hand mirror whose steepest-descent trajectory must equal "
+                   "opt_rb_coords (real drills with a rebuilt extension: gradient-factor, exponent and distance mutations caught "
+                   "in every compared case). The dihedral potentials have no analytic derivative (numerical inside C++): nothing "
+                   "claimed. Trusted: Coq kernel, Coquelicot, real-number + classical axioms (calculus theorems only), the ast "
+                   "translator (validated each run against VectorHyperDual over Qc and against DifferentiableMath), the hand "
+                   "models / mirrors (source-pinned), evR's reading of math.pow. OPEN FINDINGS on the unchanged tree: "
+                   "PrimitiveDummyLinearAngle's value depends on the first geometry its object saw and is not invariant under "
+                   "translation or rotation of the same object."),
 }
